@@ -80,6 +80,27 @@ pub fn assert_collections_unordered_equal<T: Debug + Eq + Hash>(actual: &[T], ex
             "Collection content mismatch:\n  Missing elements: {missing:?}\n  Extra elements: {extra:?}\n  Expected: {expected:?}\n  Actual: {actual:?}"
         );
     }
+
+    // Same length and same set is not enough: `[1, 1, 2]` vs. `[1, 2, 2]`. Compare multiplicities.
+    if let Some(elem) = first_count_mismatch(actual, expected) {
+        panic!(
+            "Collection multiplicity mismatch for element {elem:?}:\n  Expected: {expected:?}\n  Actual: {actual:?}"
+        );
+    }
+}
+
+/// Returns an element that does not occur equally often in `a` and `b`, if any.
+fn first_count_mismatch<'a, T: Eq + Hash>(a: &'a [T], b: &'a [T]) -> Option<&'a T> {
+    let mut counts: HashMap<&T, (usize, usize)> = HashMap::new();
+    for x in a {
+        counts.entry(x).or_insert((0, 0)).0 += 1;
+    }
+    for x in b {
+        counts.entry(x).or_insert((0, 0)).1 += 1;
+    }
+    a.iter()
+        .chain(b.iter())
+        .find(|x| counts.get(x).is_some_and(|(n, m)| n != m))
 }
 
 /// Assert that two collections of key-value pairs are equal after sorting by key.
@@ -171,6 +192,10 @@ where
         assert_eq!(
             av_set, ev_set,
             "Value mismatch for key {ak:?} at index {i}:\n  Expected values: {ev:?}\n  Actual values: {av:?}"
+        );
+        assert!(
+            first_count_mismatch(av, ev).is_none(),
+            "Value multiplicity mismatch for key {ak:?} at index {i}:\n  Expected values: {ev:?}\n  Actual values: {av:?}"
         );
     }
 }
